@@ -1,5 +1,6 @@
 """Contracts for DocumentTemplate.DT_In."""
 from pyvc.contracts import *  # noqa
+from pyvc.values import VC, VB  # noqa
 from contracts.core import SN, M
 
 IN = 'DocumentTemplate.DT_In.InClass'
@@ -21,6 +22,50 @@ def _cache_holds(E, cache, sequence):
 from pyvc import spec as _spec  # noqa
 _spec.register('cache_holds', _cache_holds)
 
+def _top_entry(E, md):
+    """the most recently pushed namespace entry (concrete list item), for binding clauses"""
+    from pyvc.values import VRef, HList, SymSeg
+    from pyvc.engine import Unsupported
+    data = E.heap[E.heap[md.addr].fields['_data'].addr]
+    if not data.items or isinstance(data.items[-1], SymSeg):
+        raise Unsupported('top_entry: no concrete entry on the namespace stack')
+    return data.items[-1]
+
+
+def _bound_object(E, entry):
+    """the object whose attributes a namespace entry exposes: InstanceDict(o) -> o, anything else -> itself"""
+    from pyvc.values import VRef, HObj, VCls
+    if isinstance(entry, VRef) and isinstance(E.heap[entry.addr], HObj):
+        h = E.heap[entry.addr]
+        if isinstance(h.cls, VCls) and h.cls.name == 'InstanceDict':
+            return h.fields['inst']
+    return entry
+
+
+def _guard_fetched(E, guard, sequence, index, client):
+    """the element at hand is what the security guard returned for (sequence, index) -- read off the ghost trace
+    since the previous cut"""
+    import z3
+    calls = [t for t in E.trace if t[0] == 'call']
+    rets = [t for t in E.trace if t[0] == 'returned']
+    if len(calls) != 1 or len(rets) != 1:
+        return VC(False)
+    c = calls[0]
+    ok = c[3] is guard and len(c[4]) == 2 and c[4][0] is sequence and rets[0][3] is client
+    if not ok:
+        return VC(False)
+    return VB(z3.BoolVal(True) if c[4][1] is index else E.as_z3_int(c[4][1]) == E.as_z3_int(index))
+
+
+def _elem(E, sq, k):
+    return E.seq_elem(sq, E.as_z3_int(k))
+
+
+_spec.register('guard_fetched', _guard_fetched)
+_spec.register('elem_at', _elem)
+_spec.register('top_entry', _top_entry)
+_spec.register('bound_object', _bound_object)
+
 CACHE_CUT = dict(name="cache", before="if isinstance(sequence, str):", keep_trace=True,
                  assume={'C12.named_sequence_cached_as_wrapped':
                          "cache_holds(cache, sequence)"})
@@ -41,35 +86,121 @@ contract(IN + ".reverse_sequence",
          ensures=dict(same_length="len_of(result) == len_of(sequence)"),
          raises_any=True, returns=ListS())
 
-WOB_LOOP = dict(
-    header="for index in range(l_)",
-    ghost={'x0': "stack_extra(md)"}, ghost_types={'x0': 'same'},
-    inv=dict(stack="stack_extra(md) == x0", level="level_of(md) == old(level_of(md))"),
-    havoc_heap=["kw", "result"],
-    types={'client': 'opaque', 't': 'opaque', 'pushed': 'int', 'vv': 'opaque'})
+# ---- C10: flags, index variable, per-item binding (clauses at the cut points of the real loop bodies) ----
+def _c10_flags(pos, first_pos, last, start_rule):
+    """clauses that hold from the flag update at the top of an iteration to its end"""
+    d = {
+        'C10.index_is_position': "index == %s" % pos,
+        'C10.end_flag_exactly_on_last': "kw['sequence-end'] == (1 if index == %s else 0)" % last,
+        'C10.start_flag_on_first': "implies(index == %s, kw['sequence-start'] == 1)" % first_pos,
+        'C10.start_flag_only_on_first_displayed': "implies(len_of(result) > 0, kw['sequence-start'] == 0)",
+        'C10.at_most_one_piece_per_element': "len_of(result) <= __k_2",
+        'C10.unguarded_every_element_displayed': "implies(is_none(guarded_getitem), len_of(result) == __k_2)",
+    }
+    d['C10.start_flag_off_after_first'] = start_rule
+    return d
+
+
+WOB_FLAGS = _c10_flags("__k_2", "0", "last",
+                       "implies(is_none(guarded_getitem) and index > 0, kw['sequence-start'] == 0)")
+WB_FLAGS = _c10_flags("first + __k_2", "first", "last", "implies(index > first, kw['sequence-start'] == 0)")
+WB_FLAGS['in_window'] = "first <= index and index < end"
+INDEX_VAR = {'C10.index_variable': "kw['sequence-index'] == index"}
+COVER = {'guarded': "not is_none(guarded_getitem)", 'unguarded': "is_none(guarded_getitem)", 'bound': "pushed == 1",
+         'not_bound': "pushed == 0", 'later_element': "__k_2 > 0", 'first_element': "__k_2 == 0"}
+BINDING = {
+    'C10.binding_depth': "stack_extra(md) == x0 + pushed",
+    'C10.no_push_item_binds_nothing': "implies(truthy_(no_push_item), pushed == 0)",
+    'C10.mapping_item_is_namespace_entry': "implies(pushed == 1 and truthy_(mapping), same(top_entry(md), client))",
+    'C10.item_attributes_visible': "implies(pushed == 1 and not truthy_(mapping), same(bound_object(top_entry(md)), client))",
+    'C10.only_strings_are_not_bound': "implies(not truthy_(no_push_item) and not truthy_(mapping) and pushed == 0, t in StringTypes)",
+    'C10.objects_are_bound': "implies(not truthy_(no_push_item) and truthy_(mapping), pushed == 1)",
+}
+FETCH = {
+    'C10.element_is_sequence_item_at_index': "implies(is_none(guarded_getitem), same(client, elem_at(sequence, index)))",
+    'C10.guarded_element_is_item_at_index': "implies(not is_none(guarded_getitem), guard_fetched(guarded_getitem, sequence, index, client))",
+}
+PREFIX_ALIASES = {
+    'C10.prefix_alias_end': "kw['p_end'] == kw['sequence-end']",
+    'C10.prefix_alias_start': "kw['p_start'] == kw['sequence-start']",
+}
+PREFIX_INDEX = {'C10.prefix_alias_index': "kw['p_index'] == kw['sequence-index']"}
+
+
+def _with(*ds):
+    out = {}
+    for d in ds:
+        out.update(d)
+    return out
+
+
+def _wob_loop(prefixed):
+    inv = dict(stack="stack_extra(md) == x0", level="level_of(md) == old(level_of(md))")
+    inv.update({
+        'C10.end_flag_exactly_on_last': "kw['sequence-end'] == (1 if (__k_2 >= l_ and __k_2 > 0) else 0)",
+        'C10.start_flag_on_first': "implies(__k_2 == 0, kw['sequence-start'] == 1)",
+        'C10.start_flag_only_on_first_displayed': "implies(len_of(result) > 0, kw['sequence-start'] == 0)",
+        'C10.start_flag_off_after_first': "implies(is_none(guarded_getitem) and __k_2 > 0, kw['sequence-start'] == 0)",
+        'C10.at_most_one_piece_per_element': "len_of(result) <= __k_2",
+        'C10.unguarded_every_element_displayed': "implies(is_none(guarded_getitem), len_of(result) == __k_2)",
+    })
+    if prefixed:
+        inv.update(PREFIX_ALIASES)
+    return dict(
+        header="for index in range(l_)",
+        ghost={'x0': "stack_extra(md)"}, ghost_types={'x0': 'same'},
+        inv=inv,
+        havoc_heap=["kw", "result"],
+        types={'client': 'opaque', 't': 'opaque', 'pushed': 'int', 'vv': 'opaque'})
+
 
 BODY_LIVE = ['self', 'md', 'sequence', 'cache', 'section', 'mapping', 'no_push_item', 'index', 'pkw', 'kw',
              'result', 'append', 'render', 'push', 'pop', 'guarded_getitem', 'client', 'l_', 'last', 'vars',
-             'prefix']
+             'prefix', '__k_2']
 
-contract(IN + ".renderwob",
-         params=dict(self=_inself(), md=TD()),
-         ensures=dict(SN), exc_ensures=dict(SN),
-         uses=[RB, GI, SES, IN + ".sort_sequence", IN + ".reverse_sequence", M + ".join_unicode"],
-         cuts=[CACHE_CUT,
-               dict(name="sorted", before="prefix = self.args.get('prefix')",
-                    live=['self', 'md', 'sequence', 'cache', 'section', 'mapping', 'no_push_item'],
-                    abstract={'sequence': Seq(kind='any')},
-                    havoc_fields=[('self', 'sort', None)],
-                    forget=['self.sort', 'self.reverse', 'self.expr', 'self.elses']),
-               dict(name="fetch", before="if guarded_getitem is not None:", live=BODY_LIVE,
-                    abstract={'index': Int()}, assume={'idx': "index >= 0"}, havoc_heap=["kw"]),
-               dict(name="item", before="pkw['sequence-index'] = index", live=BODY_LIVE,
-                    abstract={'client': Opaque(), 'index': Int()}, havoc_heap=["kw"], forget=['guarded_getitem']),
-               dict(name="push", before="if no_push_item:", live=BODY_LIVE + ['t'],
-                    abstract={'client': Opaque(), 't': Opaque()}, havoc_heap=["kw"]),
-               ],
-         invariants={2: WOB_LOOP})
+
+def _set_prefix(value):
+    def hook(E, env):
+        from pyvc.values import VC
+        me = E.heap[env.locals['self'].addr]
+        args = E.heap[me.fields['args'].addr]
+        args.entries.append([VC('prefix'), VC(value)])
+    return hook
+
+
+def _make_wob(variant=None, prefixed=False):
+    al = PREFIX_ALIASES if prefixed else {}
+    ai = _with(al, PREFIX_INDEX) if prefixed else {}
+    return contract(
+        IN + ".renderwob", variant=variant,
+        params=dict(self=_inself(), md=TD()),
+        pre_hook=_set_prefix('p') if prefixed else None,
+        ensures=dict(SN), exc_ensures=dict(SN),
+        uses=[RB, GI, SES, IN + ".sort_sequence", IN + ".reverse_sequence", M + ".join_unicode"],
+        cuts=[CACHE_CUT,
+              dict(name="sorted", before="prefix = self.args.get('prefix')",
+                   live=['self', 'md', 'sequence', 'cache', 'section', 'mapping', 'no_push_item'],
+                   abstract={'sequence': Seq(kind='any')},
+                   havoc_fields=[('self', 'sort', None)],
+                   forget=['self.sort', 'self.reverse', 'self.expr', 'self.elses']),
+              dict(name="fetch", before="if guarded_getitem is not None:", live=BODY_LIVE,
+                   abstract={'index': Int()}, assume=_with({'idx': "index >= 0"}, WOB_FLAGS, al), havoc_heap=["kw"]),
+              dict(name="item", before="pkw['sequence-index'] = index", live=BODY_LIVE,
+                   abstract={'client': Opaque(), 'index': Int()}, havoc_heap=["kw"],
+                   assume=_with(WOB_FLAGS, al), check=FETCH),
+              dict(name="push", before="if no_push_item:", live=BODY_LIVE + ['t'],
+                   abstract={'client': Opaque(), 't': Opaque()}, havoc_heap=["kw"],
+                   assume=_with(WOB_FLAGS, INDEX_VAR, ai)),
+              dict(name="body", before="try: append(render(section, md, encoding=self.encoding))", live=BODY_LIVE + ['t', 'pushed'],
+                   havoc_heap=["kw"], assume=_with(WOB_FLAGS, INDEX_VAR, ai, BINDING), cover=COVER),
+              dict(name="done", before="result = join_unicode(result, encoding=self.encoding)", live=['__k_2'],
+                   assume={'C10.every_element_visited_in_order': "__k_2 == len_of(sequence)"}),
+              ],
+        invariants={2: _wob_loop(prefixed)})
+
+
+_make_wob()
+_make_wob('p', True)
 
 
 # int_param (DT_In): literal digits or a namespace lookup; no push/pop.
@@ -89,61 +220,94 @@ contract('DocumentTemplate.DT_In.int_param',
 OPT = 'DocumentTemplate.DT_InSV.opt'
 PB_ = "pulled(sequence) <= imax(pulled_initial(sequence), end + sz + orphan)"
 
-WB_LOOP = dict(
-    header="for index in range(first, end)",
-    ghost={'x0': "stack_extra(md)"}, ghost_types={'x0': 'same'},
-    inv={'stack': "stack_extra(md) == x0", 'level': "level_of(md) == old(level_of(md))", 'C12.pull_bound': PB_},
-    havoc_heap=["kw", "result"], havoc_ghost=["sequence"],
-    types={'client': 'opaque', 't': 'opaque', 'pushed': 'int', 'vv': 'opaque', 'pstart': 'int', 'pend': 'int',
-           'psize': 'int'})
+def _wb_loop(prefixed):
+    inv = {'stack': "stack_extra(md) == x0", 'level': "level_of(md) == old(level_of(md))", 'C12.pull_bound': PB_}
+    inv.update({
+        'C10.end_flag_exactly_on_last': "kw['sequence-end'] == (1 if (__k_2 >= end - first and __k_2 > 0) else 0)",
+        'C10.start_flag_on_first': "implies(__k_2 == 0, kw['sequence-start'] == 1)",
+        'C10.start_flag_only_on_first_displayed': "implies(len_of(result) > 0, kw['sequence-start'] == 0)",
+        'C10.start_flag_off_after_first': "implies(__k_2 > 0, kw['sequence-start'] == 0)",
+        'C10.at_most_one_piece_per_element': "len_of(result) <= __k_2",
+        'C10.unguarded_every_element_displayed': "implies(is_none(guarded_getitem), len_of(result) == __k_2)",
+    })
+    if prefixed:
+        inv.update(PREFIX_ALIASES)
+    return dict(
+        header="for index in range(first, end)",
+        ghost={'x0': "stack_extra(md)"}, ghost_types={'x0': 'same'},
+        inv=inv,
+        havoc_heap=["kw", "result"], havoc_ghost=["sequence"],
+        types={'client': 'opaque', 't': 'opaque', 'pushed': 'int', 'vv': 'opaque', 'pstart': 'int', 'pend': 'int',
+               'psize': 'int'})
 
-contract(IN + ".renderwb",
-         params=dict(self=_inself(), md=TD()),
-         ensures=dict(SN), exc_ensures=dict(SN), lazy_len=True,
-         uses=[RB, GI, SES, IN + ".sort_sequence", IN + ".reverse_sequence", M + ".join_unicode",
-               'DocumentTemplate.DT_In.int_param', OPT],
-         cuts=[CACHE_CUT,
-               dict(name="sorted", before="next = previous = 0",
-                    abstract={'sequence': Seq(kind='any', lazy=True)},
-                    assume={'nonempty': "len_of(sequence) >= 1"},
-                    havoc_fields=[('self', 'sort', None)],
-                    forget=['self.sort', 'self.reverse', 'self.expr', 'self.elses']),
-               dict(name="params", before="start, end, sz = opt(start, end, size, orphan, sequence)",
-                    abstract={'start': Int(assumed=True), 'end': Int(assumed=True), 'size': Int(assumed=True),
-                              'overlap': Int(assumed=True), 'orphan': Int(assumed=True)},
-                    suppose={'orphan_nonneg': "orphan >= 0", 'overlap_nonneg': "overlap >= 0"},
-                    assume={'nonempty': "len_of(sequence) >= 1"}),
-               dict(name="window", before="last = end - 1",
-                    abstract={'start': Int(), 'end': Int(), 'sz': Int()},
-                    # C11 (from the property): 1 <= start <= end <= length
-                    assume={'C11.start_lo': "1 <= start", 'C11.ordered': "start <= end",
-                            'C11.end_in_sequence': "end <= len_of(sequence)", 'size_pos': "sz >= 1",
-                            'C12.pull_bound': PB_},
-                    suppose={'overlap_lt_size': "overlap < sz"},
-                    havoc_ghost=["sequence"]),
-               dict(name="links", before="if index == last: pkw['sequence-end'] = 1",
-                    abstract={'index': Int()}, live=["kw"], havoc_heap=["kw"], drop=['pstart', 'pend', 'psize'],
-                    havoc_ghost=["sequence"], forget_iteration=True,
-                    assume={'in_window': "first <= index and index < end", 'C12.pull_bound': PB_,
-                            # C11: batch links announced on the first / last displayed element
-                            'C11.previous_sequence_flag': "kw['previous-sequence'] == (1 if (index == first and first > 0) else 0)",
-                            'C11.next_sequence_flag': "kw['next-sequence'] == (1 if (index == last and end < len_of(sequence)) else 0)",
-                            'C11.previous_batch_ends_at_start_minus_1_plus_overlap':
-                                "implies(index == first and first > 0 and overlap >= 0, "
-                                "kw['previous-sequence-end-index'] + 1 == imin(start - 1 + overlap, len_of(sequence)))",
-                            'C11.next_batch_starts_at_end_plus_1_minus_overlap':
-                                "implies(index == last and end < len_of(sequence) and overlap <= end, "
-                                "kw['next-sequence-start-index'] + 1 == imin(end + 1 - overlap, len_of(sequence)))",
-                            }),
-               dict(name="fetch", before="if guarded_getitem is not None:",
-                    abstract={'index': Int()}, live=["kw"], havoc_heap=["kw"], havoc_ghost=["sequence"], forget_iteration=True,
-                    assume={'C11.displayed_index_in_sequence': "0 <= index and index < len_of(sequence)",
-                            'in_window': "first <= index and index < end", 'C12.pull_bound': PB_}),
-               dict(name="item", before="pkw['sequence-index'] = index",
-                    abstract={'client': Opaque(), 'index': Int()}, live=["kw"], havoc_heap=["kw"],
-                    havoc_ghost=["sequence"], forget_iteration=True, assume={'C12.pull_bound': PB_}),
-               dict(name="push", before="if no_push_item:",
-                    abstract={'client': Opaque(), 't': Opaque()}, live=["kw"], havoc_heap=["kw"],
-                    havoc_ghost=["sequence"], forget_iteration=True, assume={'C12.pull_bound': PB_}),
-               ],
-         invariants={2: WB_LOOP})
+
+WBL = ["kw", "__k_2"]
+
+
+def _make_wb(variant=None, prefixed=False):
+    al = PREFIX_ALIASES if prefixed else {}
+    ai = _with(al, PREFIX_INDEX) if prefixed else {}
+    before_end = _with(WB_FLAGS, al)
+    before_end['C10.end_flag_exactly_on_last'] = "kw['sequence-end'] == 0"     # not yet updated for this element
+    return contract(
+        IN + ".renderwb", variant=variant,
+        params=dict(self=_inself(), md=TD()),
+        pre_hook=_set_prefix('p') if prefixed else None,
+        ensures=dict(SN), exc_ensures=dict(SN), lazy_len=True,
+        uses=[RB, GI, SES, IN + ".sort_sequence", IN + ".reverse_sequence", M + ".join_unicode",
+              'DocumentTemplate.DT_In.int_param', OPT],
+        cuts=[CACHE_CUT,
+              dict(name="sorted", before="next = previous = 0",
+                   abstract={'sequence': Seq(kind='any', lazy=True)},
+                   assume={'nonempty': "len_of(sequence) >= 1"},
+                   havoc_fields=[('self', 'sort', None)],
+                   forget=['self.sort', 'self.reverse', 'self.expr', 'self.elses']),
+              dict(name="params", before="start, end, sz = opt(start, end, size, orphan, sequence)",
+                   abstract={'start': Int(assumed=True), 'end': Int(assumed=True), 'size': Int(assumed=True),
+                             'overlap': Int(assumed=True), 'orphan': Int(assumed=True)},
+                   suppose={'orphan_nonneg': "orphan >= 0", 'overlap_nonneg': "overlap >= 0"},
+                   assume={'nonempty': "len_of(sequence) >= 1"}),
+              dict(name="window", before="last = end - 1",
+                   abstract={'start': Int(), 'end': Int(), 'sz': Int()},
+                   # C11 (from the property): 1 <= start <= end <= length
+                   assume={'C11.start_lo': "1 <= start", 'C11.ordered': "start <= end",
+                           'C11.end_in_sequence': "end <= len_of(sequence)", 'size_pos': "sz >= 1",
+                           'C12.pull_bound': PB_},
+                   suppose={'overlap_lt_size': "overlap < sz"},
+                   havoc_ghost=["sequence"]),
+              dict(name="links", before="if index == last: pkw['sequence-end'] = 1",
+                   abstract={'index': Int()}, live=WBL, havoc_heap=["kw"], drop=['pstart', 'pend', 'psize'],
+                   havoc_ghost=["sequence"], forget_iteration=True,
+                   assume=_with({'in_window': "first <= index and index < end", 'C12.pull_bound': PB_,
+                           # C11: batch links announced on the first / last displayed element
+                           'C11.previous_sequence_flag': "kw['previous-sequence'] == (1 if (index == first and first > 0) else 0)",
+                           'C11.next_sequence_flag': "kw['next-sequence'] == (1 if (index == last and end < len_of(sequence)) else 0)",
+                           'C11.previous_batch_ends_at_start_minus_1_plus_overlap':
+                               "implies(index == first and first > 0 and overlap >= 0, "
+                               "kw['previous-sequence-end-index'] + 1 == imin(start - 1 + overlap, len_of(sequence)))",
+                           'C11.next_batch_starts_at_end_plus_1_minus_overlap':
+                               "implies(index == last and end < len_of(sequence) and overlap <= end, "
+                               "kw['next-sequence-start-index'] + 1 == imin(end + 1 - overlap, len_of(sequence)))",
+                           }, before_end)),
+              dict(name="fetch", before="if guarded_getitem is not None:",
+                   abstract={'index': Int()}, live=WBL, havoc_heap=["kw"], havoc_ghost=["sequence"], forget_iteration=True,
+                   assume=_with({'C11.displayed_index_in_sequence': "0 <= index and index < len_of(sequence)",
+                           'in_window': "first <= index and index < end", 'C12.pull_bound': PB_}, WB_FLAGS, al)),
+              dict(name="item", before="pkw['sequence-index'] = index",
+                   abstract={'client': Opaque(), 'index': Int()}, live=WBL, havoc_heap=["kw"],
+                   havoc_ghost=["sequence"], forget_iteration=True, assume=_with({'C12.pull_bound': PB_}, WB_FLAGS, al), check=FETCH),
+              dict(name="push", before="if no_push_item:",
+                   abstract={'client': Opaque(), 't': Opaque()}, live=WBL, havoc_heap=["kw"],
+                   havoc_ghost=["sequence"], forget_iteration=True,
+                   assume=_with({'C12.pull_bound': PB_}, WB_FLAGS, INDEX_VAR, ai)),
+              dict(name="body", before="try: append(render(section, md, encoding=self.encoding))",
+                   live=WBL, havoc_heap=["kw"], havoc_ghost=["sequence"], forget_iteration=True,
+                   assume=_with({'C12.pull_bound': PB_}, WB_FLAGS, INDEX_VAR, ai, BINDING), cover=COVER),
+              dict(name="done", before="result = join_unicode(result, encoding=self.encoding)", live=['__k_2'],
+                   assume={'C10.every_window_element_visited_in_order': "__k_2 == end - first"}),
+              ],
+        invariants={2: _wb_loop(prefixed)})
+
+
+_make_wb()
+_make_wb('p', True)
